@@ -94,7 +94,9 @@ def gen(rng, cid, nops):
             k, c = new(rng.choice(KINDS), f)
             how = rng.random()
             text = content(k, c)
-            if how < 0.1:
+            if how < 0.06:
+                ops.append({"op": "link_in", "file": f, "text": text})
+            elif how < 0.14:
                 ops.append({"op": "write_keepopen", "file": f, "text": text})
             elif how < 0.5:
                 ops.append({"op": "write", "file": f, "text": text})
@@ -152,7 +154,7 @@ def gen(rng, cid, nops):
     # make sure something valid is there at the end
     for f in rng.sample(FILES[:5], 3):
         k, c = new("valid", f)
-        ops.append({"op": "write", "file": f, "text": content(k, c)})
+        ops.append({"op": rng.choice(["write", "write", "write", "link_in", "rename_in"]), "file": f, "text": content(k, c)})
         state[f] = (k, c)
     scn = {"id": cid, "seed": rng.randint(1, 10**6), "base": BASE, "initial": initial, "ops": ops, "missing_at_start": missing, "trailing_slash": rng.random() < 0.2, "yield_us": rng.choice([0, 100, 400]), "mutex_yield_ppm": rng.choice([0, 20000, 200000])}
     meta = {"final": {f: list(v) for f, v in state.items()}, "initial": {f: list(v) for f, v in init_state.items()}, "recreated": recreated, "invalid": invalid, "missing_at_start": missing}
